@@ -518,8 +518,7 @@ package argmapper
 // every memoized result is the result of an execution (never a resolution error)
 //@ ghost onceInv() bool = forall(x, *Func, imp(x.onceResult != nil, x.onceResult.buildErr == nil))
 //@ func (*Func).callDirect
-//@   requires vsWF(f.input) && argMap != nil && onceInv()
-//@   ensures  onceInv()
+//@   requires vsWF(f.input) && argMap != nil
 //@   requires [no-earlier-failure] failed == nil
 //@   requires [planning-runs-stand-ins-only] imp(planning, zeroFn(f.fn))
 //@   ensures  [cached-result-not-executed] imp(old(cachedOnce(f)), nexec == old(nexec) && f.execs == old(f.execs) && failed == old(failed) && result.out == old(f.onceResult.out) && result.buildErr == old(f.onceResult.buildErr) && f.onceResult == old(f.onceResult))
@@ -607,18 +606,17 @@ package argmapper
 // ---------------------------------------------------------------- call.go: reachTarget, Call (C02 C04 C09)
 //@ sort ArgMap = map[interface{}]reflect.Value
 //@ func (*Func).reachTarget
-//@   requires g != nil && state != nil && state.InputSet != nil && state.NamedValue != nil && state.TypedValue != nil && onceInv()
+//@   requires g != nil && state != nil && state.InputSet != nil && state.NamedValue != nil && state.TypedValue != nil
 //@   requires [no-earlier-failure] failed == nil
-//@   ensures  onceInv()
 //@   ensures  [success-means-no-converter-failed] imp(result1 == nil, failed == nil && result0 != nil)
 //@   ensures  [failing-converter-error-returned-verbatim] imp(failed != nil, result1 == failed)
 //@   ensures  [error-means-no-arguments] imp(result1 != nil, result0 == nil)
 //@   ensures  planning == old(planning)
 //@   assigns  graph.Graph, Outer, Inner, HashM, VisitM, ItemM, []graph.Vertex, [][]graph.Vertex, []*graph.distQueueItem, *graph.distQueue, graph.distQueueItem, valueVertex.Value, typedArgVertex.Value, typedOutputVertex.Value, valueVertex, typedArgVertex, callState, NamedM, TypedM, ArgMap, map[interface{}]graph.Vertex, []*Value, Value, valueInternal, ErrArgumentUnsatisfied, Result, structValue, Func.onceResult, Func.execs, []interface{}, []error, []reflect.Value, multierror.Error, rvstore, rvfresh, nexec, failed, lastStruct, fin, frozen, cnt, reported, dvisited, kpos, spos
 //@   modifies forall(x, *valueVertex, true), forall(x, *typedArgVertex, true), forall(x, *typedOutputVertex, true), forall(x, *Func, true), state, state.NamedValue, state.TypedValue, state.InputSet
-//@   loop 6 invariant failed == nil && onceInv()
+//@   loop 6 invariant failed == nil
 //@   loop 6 invariant planning == old(planning)
-//@   loop 7 invariant failed == nil && onceInv()
+//@   loop 7 invariant failed == nil
 //@   loop 7 invariant planning == old(planning)
 //@   after "result := v.Func.callDirect(log, funcArgMap)" assert [converter-failure-visible] imp(failed != nil, result.buildErr == nil && len(result.out) > 0 && failed == errOf(result.out[len(result.out)-1]))
 //@   before "v.Func.outputValues(result, g.InEdges(v), state)" assert [no-failure-before-propagating-outputs] failed == nil
@@ -639,16 +637,17 @@ package argmapper
 // Call: ghost history starts afresh (failed = nil); the three early exits and the final execution
 //@ ghostvar finalStep bool
 //@ ghostvar nexecAtFinal int
+//@ ghostvar cachedAtFinal bool
 //@ func (*Func).Call
-//@   requires vsWF(f.input) && onceInv() && !planning
+//@   requires vsWF(f.input) && !planning
 //@   ensures  [resolution-failure-has-no-outputs-and-never-reaches-the-target] imp(!finalStep, result.buildErr != nil && len(result.out) == 0)
 //@   ensures  [failing-converter-error-returned-verbatim-target-not-reached] imp(failed != nil && !finalStep, result.buildErr == failed)
-//@   ensures  [target-with-missing-argument-not-executed] imp(finalStep && result.buildErr != nil, nexec == nexecAtFinal && len(result.out) == 0)
+//@   ensures  [target-with-missing-argument-not-executed] imp(finalStep && !cachedAtFinal && result.buildErr != nil, nexec == nexecAtFinal && len(result.out) == 0)
 //@   ensures  [no-failing-converter-when-the-target-is-reached] imp(finalStep, nexecAtFinal <= nexec)
-//@   ensures  onceInv()
 //@   assigns  *
 //@   before "builder, buildErr := f.argBuilder(opts...)" set finalStep = false
 //@   before "return f.callDirect(log, argMap)" assert [target-reached-only-without-converter-failure] failed == nil
 //@   before "return f.callDirect(log, argMap)" set finalStep = true
 //@   before "return f.callDirect(log, argMap)" set nexecAtFinal = nexec
+//@   before "return f.callDirect(log, argMap)" set cachedAtFinal = cachedOnce(f)
 //@   before "builder, buildErr := f.argBuilder(opts...)" set failed = nil
